@@ -1,8 +1,12 @@
 (* C08 — key exchange rejects invalid peer public values and out-of-range groups.
    Property statements only; every proof is `exact <lemma from Proofs/C08_proofs.v>`.
    reject_xxx / steps_xxx / dh_sites / all_handlers are generated from the source (Gen/C08_gen.v):
-   dh_sites pairs each of the four DH handlers (kex_group1 _parse_kexdh_reply/_init, also run by the
-   group14/group16 engines; kex_gex _parse_kexdh_gex_init/_reply) with the range test it contains. *)
+   dh_sites pairs each DH handler with the range test it contains: dh_sites_complete = the four
+   fully modelled handlers (kex_group1 _parse_kexdh_reply/_init, also run by the group14/group16
+   engines; kex_gex _parse_kexdh_gex_init/_reply), followed by the four kex_gss.py sites
+   (KexGSSGroup1 _parse_kexgss_complete/_init, also run by KexGSSGroup14; KexGSSGex
+   _parse_kexgss_gex_init/_complete), whose step lists are PREFIXES of the handler up to and including
+   its first transport call (the GSS context negotiation after _set_K_H is not modelled). *)
 From Coq Require Import ZArith List Bool Znumtheory.
 From PV Require Import Bytes C08_gen C08 C08_proofs.
 Import ListNotations.
@@ -70,16 +74,46 @@ Theorem C08_reject_no_newkeys :
 Proof. exact reject_no_newkeys. Qed.
 Print Assumptions C08_reject_no_newkeys.
 
-(* DH handlers: out of range -> SSHException and nothing done; in range -> runs to the end
-   (keys set and outbound activated) *)
+(* all eight DH sites: out of range -> SSHException and nothing done; in range -> the first
+   transport call is _set_K_H *)
 Theorem C08_dh_handler :
   forall h rej, In (h, rej) dh_sites ->
   forall en,
     (~ (1 <= e_v en <= e_p en - 1) -> run_steps h en = ([], Raise SSHExc)) /\
     (1 <= e_v en <= e_p en - 1 ->
-       exists tr, run_steps h en = (tr, Ok tt) /\ In EvSetKH tr /\ In EvActivate tr).
+       exists tr, run_steps h en = (EvSetKH :: tr, Ok tt)).
 Proof. exact dh_handler. Qed.
 Print Assumptions C08_dh_handler.
+
+(* the four fully modelled handlers run to the end (keys set, outbound activated) when they accept *)
+Theorem C08_dh_handler_activates :
+  forall h rej, In (h, rej) dh_sites_complete ->
+  forall en, 1 <= e_v en <= e_p en - 1 ->
+    exists tr, run_steps h en = (tr, Ok tt) /\ In EvSetKH tr /\ In EvActivate tr.
+Proof. exact dh_handler_activates. Qed.
+Print Assumptions C08_dh_handler_activates.
+
+(* kex_gss.py: KexGSSGex._parse_kexgss_group enforces the same size test as KexGex, before the GSS
+   context is touched or anything is sent; a raising GSS prefix has emitted nothing *)
+Theorem C08_gss_gex_bits :
+  forall p, (gss_gex_group_accept p = true <-> 0 < p /\ 1024 <= bitlen p <= 8192) /\
+            gss_gex_group_accept p = gex_group_accept p.
+Proof. intro p. split; [exact (gss_gex_bits p) | exact (gss_gex_same p)]. Qed.
+Print Assumptions C08_gss_gex_bits.
+
+Theorem C08_gss_gex_group_handler :
+  forall en,
+  (gss_gex_group_accept (e_p en) = false -> run_steps steps_gss_gex_group en = ([], Raise SSHExc)) /\
+  (gss_gex_group_accept (e_p en) = true -> e_gss_ok en = true ->
+     run_steps steps_gss_gex_group en = ([EvSend], Ok tt)).
+Proof. exact gss_gex_group_handler. Qed.
+Print Assumptions C08_gss_gex_group_handler.
+
+Theorem C08_gss_reject_no_newkeys :
+  forall h, In h gss_prefixes ->
+  forall en tr e, run_steps h en = (tr, Raise e) -> tr = [].
+Proof. exact gss_reject_no_newkeys. Qed.
+Print Assumptions C08_gss_reject_no_newkeys.
 
 (* group handler: a modulus outside the range -> SSHException, KEXDH_GEX_INIT is not sent *)
 Theorem C08_gex_group_handler :
@@ -113,6 +147,27 @@ Theorem C08_ec_handler_partial :
 Proof. exact ec_handler. Qed.
 Print Assumptions C08_ec_handler_partial.
 
+(* the larger fragment: IF the library's validation agrees with the Gallina SEC1 spec ec_accept on the
+   received encoding (the premise e_point_ok en = ec_accept c sq pt - compared on generated points
+   every run, not proved) and its ECDH on a validated point succeeds, then the handlers accept
+   exactly the encodings the spec accepts, refuse the empty string and the point at infinity, and
+   do nothing at all on a refused one.  Together with C08_ec_spec_on_curve: an accepted
+   uncompressed point is on the curve.  (Full statement without the premise is not provable here:
+   from_encoded_point is library code.) *)
+Theorem C08_ec_handler_under_spec :
+  forall en c sq pt,
+  e_point_ok en = ec_accept c sq pt -> e_exch_ok en = true ->
+  (ec_accept c sq pt = false ->
+     run_steps steps_ecdh_init en = ([], Raise ValueErr) /\
+     run_steps steps_ecdh_reply en = ([], Raise ValueErr)) /\
+  (forall tr, run_steps steps_ecdh_init en = (tr, Ok tt) \/ run_steps steps_ecdh_reply en = (tr, Ok tt) ->
+     ec_accept c sq pt = true /\ pt <> [] /\ pt <> [0]) /\
+  (ec_accept c sq pt = true ->
+     run_steps steps_ecdh_init en = ([EvSetKH; EvSend; EvActivate], Ok tt) /\
+     run_steps steps_ecdh_reply en = ([EvSetKH; EvVerifyKey; EvActivate], Ok tt)).
+Proof. exact ec_handler_under_spec. Qed.
+Print Assumptions C08_ec_handler_under_spec.
+
 (* the spec the library is compared with: an accepted uncompressed encoding has the right length,
    coordinates below p, and satisfies the curve equation; the empty string and the point at
    infinity are refused *)
@@ -144,7 +199,13 @@ Example C08_example_gex :
 Proof. repeat split; vm_compute; reflexivity. Qed.
 
 Example C08_example_raise :
-  run_steps steps_group1_init (mkenv 0 23 [] true true) = ([], Raise SSHExc) /\
-  run_steps steps_group1_init (mkenv 5 23 [] true true) = ([EvSetKH; EvSend; EvActivate], Ok tt) /\
+  run_steps steps_group1_init (mkenv 0 23 [] true true true) = ([], Raise SSHExc) /\
+  run_steps steps_group1_init (mkenv 5 23 [] true true true) = ([EvSetKH; EvSend; EvActivate], Ok tt) /\
+  run_steps steps_gss_gex_complete (mkenv 23 23 [] true true true) = ([], Raise SSHExc) /\
+  In (steps_gss_gex_complete, reject_gss_gex_complete) dh_sites /\
   In steps_group1_init all_handlers.
-Proof. repeat split; try reflexivity. unfold all_handlers. cbn [In]. tauto. Qed.
+Proof.
+  repeat split; try reflexivity.
+  - unfold dh_sites. rewrite in_app_iff. cbn [In]. tauto.
+  - unfold all_handlers. cbn [In]. tauto.
+Qed.
